@@ -2,6 +2,7 @@ package rules
 
 import (
 	"go/ast"
+	"go/token"
 	"go/types"
 	"sort"
 	"strings"
@@ -17,6 +18,8 @@ func init() {
 			"every exit of a walk function that signals an error (return r.err()) has recorded an error on all paths in the validation pass; every leaf walker tests null-ness before it tests the JSON kind and, on the null edge, either renders null under Nullable or records the non-null violation; the JSON tree is nulled only in the validation pass (two idempotent array sites frozen); " +
 			"the renderer's bookkeeping stacks (response path, runtime type names, enclosing type names) are balanced on every exit of every walk function. It does not decide JSON validity, key-set equality or projection equality (value level).",
 		Mutants: []Mutant{
+			{Name: "errors member of a subscription event stored whatever its JSON kind (the repaired defect F23)", File: "v2/pkg/engine/resolve/resolvable.go", Rule: "C02-R8", Key: "InitSubscription/errors-assigned-an-array",
+				Old: "\t\t\tif selectedInitialErrors != nil && selectedInitialErrors.Type() == astjson.TypeArray {", New: "\t\t\tif selectedInitialErrors != nil {"},
 			{Name: "value completion extension does not set the comma flag (seeded change C02-13)", File: "v2/pkg/engine/resolve/resolvable.go", Rule: "C02-R7", Key: "Resolvable.printExtensions/section",
 				Old: "\t\twriteComma = true\n\t\terr := r.printValueCompletionExtension()", New: "\t\terr := r.printValueCompletionExtension()"},
 			{Name: "Object.Copy drops the possible types (the repaired defect F12)", File: "v2/pkg/engine/resolve/node_object.go", Rule: "C02-R6", Key: "Object.Copy/preserves:PossibleTypes",
@@ -50,6 +53,7 @@ var c02Recorders = map[string]bool{
 
 func runC02(r *fw.Run) {
 	defer c02CopyPreserves(r)
+	defer c02ErrorsIsAnArray(r)
 	defer c02CommaFlags(r)
 	p := r.Prog
 	pk := p.Pkg("resolve")
@@ -652,4 +656,91 @@ func c02CommaFlags(r *fw.Run) {
 	}
 	r.Expect("C02-R7", "comma flags", nFlags, 1)
 	r.Expect("C02-R7", "member sections followed by a flag test", nSections, 6)
+}
+
+// c02ErrorsIsAnArray (R8): every null propagation is reported by appending to Resolvable.errors / Loader.errors, and the
+// append helper silently does nothing when the target is not a JSON array. The two fields therefore only ever hold nil (the
+// array is created on first use) or an array: every assignment is nil, a fresh astjson.ArrayValue, the other errors field,
+// or a value whose Type() was tested equal to astjson.TypeArray on the way. A subgraph event with `"errors": null` stored
+// as it comes makes every later error of that response disappear.
+func c02ErrorsIsAnArray(r *fw.Run) {
+	p := r.Prog
+	r.Rule("C02-R8", "Resolvable.errors and Loader.errors only ever hold nil or a JSON array: every assignment is nil, astjson.ArrayValue(…), the other errors field, or a value whose Type() was tested equal to TypeArray")
+	info := p.Pkg("resolve").TypesInfo
+	isErrorsField := func(e ast.Expr) bool {
+		return fw.IsFieldSel(info, e, "resolve", "Resolvable", "errors") || fw.IsFieldSel(info, e, "resolve", "Loader", "errors")
+	}
+	n := 0
+	for _, fi := range p.Funcs("resolve") {
+		has := false
+		fw.WalkAll(fi.Decl.Body, func(nd ast.Node) bool {
+			for _, t := range fw.WriteTargets(info, nd) {
+				if isErrorsField(t) {
+					has = true
+				}
+			}
+			return true
+		})
+		if !has {
+			continue
+		}
+		in := fw.NewInterp(fi)
+		in.H = fw.Hooks{
+			Cond: func(e ast.Expr, branch bool, st *fw.State) {
+				be, ok := ast.Unparen(e).(*ast.BinaryExpr)
+				if !ok || (be.Op != token.EQL && be.Op != token.NEQ) || (be.Op == token.EQL) != branch {
+					return
+				}
+				for _, pr := range [][2]ast.Expr{{be.X, be.Y}, {be.Y, be.X}} {
+					c, isCall := ast.Unparen(pr[0]).(*ast.CallExpr)
+					if !isCall {
+						continue
+					}
+					sel, isSel := ast.Unparen(c.Fun).(*ast.SelectorExpr)
+					if !isSel || sel.Sel.Name != "Type" {
+						continue
+					}
+					if co := fw.ConstObj(info, pr[1]); co != nil && co.Name() == "TypeArray" {
+						if o := fw.RootObj(info, sel.X); o != nil {
+							st.Set("is-array:" + o.Name())
+						}
+					}
+				}
+			},
+			Node: func(nd ast.Node, st *fw.State) {
+				as, ok := nd.(*ast.AssignStmt)
+				if !ok || !in.Final() {
+					return
+				}
+				for i, l := range as.Lhs {
+					if !isErrorsField(l) || i >= len(as.Rhs) {
+						continue
+					}
+					n++
+					rhs := ast.Unparen(as.Rhs[i])
+					ok := false
+					if id, isID := rhs.(*ast.Ident); isID && id.Name == "nil" {
+						ok = true
+					}
+					if c, isCall := rhs.(*ast.CallExpr); isCall {
+						if fn := fw.Callee(info, c); fn != nil && fn.Name() == "ArrayValue" {
+							ok = true
+						}
+					}
+					if isErrorsField(rhs) {
+						ok = true
+					}
+					if o := fw.RootObj(info, rhs); o != nil && st.Must("is-array:"+o.Name()) {
+						if _, isID := rhs.(*ast.Ident); isID {
+							ok = true
+						}
+					}
+					r.Check(ok, "C02-R8", fi.Name()+"/errors-assigned-an-array#"+itoa(n), p.Pos(as.Pos()), "the errors field is assigned nil, a fresh array, the loader's array, or a value tested to be an array in "+fi.Name(),
+						"a value of unknown JSON kind is stored as the errors array (e.g. `\"errors\": null` of a subscription event): it is not nil, so the array is never created, and appending to a non-array silently does nothing — every null-propagation error of that response disappears and the client receives nulled data without any error")
+				}
+			},
+		}
+		in.Run(nil)
+	}
+	r.Expect("C02-R8", "assignments of the errors fields", n, 14)
 }
